@@ -145,32 +145,79 @@ def Steady (M : Nat) : List Resp → Nat → Nat → Bool
     if r.k = 0 then r.err.isNone && z + 1 < M && Steady M rest (slen+1) (z+1)
     else (r.err.isNone || slen = 0) && Steady M rest slen 0
 
-/-- liveness over a steady source (or a bytes reader): a request that fits into the rest of the
-    stream is served in full — no failure, no short ReadBinary -/
+/-- liveness: a request that fits into the rest of the stream is served in full — no failure, no
+    short ReadBinary (judged when the source's `Credit` says so, see below) -/
 def liveOk {ε : Type} (c : Cur) : ROp → RRes ε → Bool
   | .next n, .fail _ | .peek n, .fail _ | .skip n, .fail _ => n < 0 || n.toNat > c.rest.length
   | .readBinary n, .rb _ m _ => m == min n c.rest.length
   | _, _ => true
 
+/-- the non-negative request an operation makes, if any -/
+def ROp.req : ROp → Option Nat
+  | .next n | .peek n | .skip n => if n < 0 then none else some n.toNat
+  | .readBinary n => some n
+  | _ => none
+
+/-- smallest chunk size of a script -/
+def minK : List Resp → Nat
+  | [] => 0
+  | [x] => x.k
+  | x :: rest => min x.k (minK rest)
+
+/-- What the judge knows about the source's willingness to deliver, kept next to the cursor.
+    `all`: every request that fits into the rest of the stream must be served (bytes reader, `Steady`
+    script, or the source is known to have handed over everything).
+    Otherwise `credit`: a *plain* script — every entry error-free with `k ≥ K ≥ 1`, any chunk sizes —
+    hands over at least `min K (what is asked) (what is left)` bytes per `Read`, so `e` unread entries
+    are good for `e * K` bytes; a request for `n` bytes uses up fewer than `n + K` of that.  A reader
+    only ever gets a zero-length read when it offers zero room, which it must not do while it still
+    needs bytes.  `credit` is a lower bound of `(unread entries) * K`. -/
+structure Credit where
+  K : Nat
+  credit : Nat
+  all : Bool
+deriving Repr, DecidableEq
+
+def Credit.init (live : Bool) (script : List Resp) : Credit :=
+  if script.all (fun x => x.err.isNone && decide (1 ≤ x.k)) then ⟨minK script, script.length * minK script, live⟩
+  else ⟨0, 0, live⟩
+
+/-- must this request be served in full (all `n` bytes, or — ReadBinary past the end — all that is left)? -/
+def Credit.must (cr : Credit) (c : Cur) (op : ROp) : Bool :=
+  cr.all || (match op.req with
+    | some n => decide (min n c.rest.length ≤ cr.credit)
+    | none => false)
+
+/-- the credit after the operation (`c` = the cursor before it) -/
+def Credit.after (cr : Credit) (c : Cur) (op : ROp) : Credit :=
+  if cr.all then cr else
+  match op.req with
+  | none => cr
+  | some n =>
+    if n ≤ c.rest.length then
+      { cr with credit := if n ≤ cr.credit then cr.credit - (n + cr.K) else 0 }
+    else if c.rest.length ≤ cr.credit then { cr with all := true }   -- the source is drained now
+    else { cr with credit := 0 }
+
 /-- the complete judgement of one report (this is the driver's verdict): the cursor contract, then
-    error provenance, then — when the source is `live` (steady / bytes) — liveness -/
-def Cur.judge (M : Nat) (script : List Resp) (live : Bool) (c : Cur) (op : ROp) (res : RRes RErr) :
-    Except String Cur :=
+    error provenance, then liveness wherever the source's `Credit` says the request must be served -/
+def Cur.judge (M : Nat) (script : List Resp) (cr : Credit) (c : Cur) (op : ROp) (res : RRes RErr) :
+    Except String (Cur × Credit) :=
   match c.step op res with
   | .error why => .error why
   | .ok c' =>
     if (match res.err with
         | some e => !errAllowed M script op e
         | none => false) then .error "foreign-error"
-    else if live && !liveOk c op res then .error "spurious-failure"
-    else .ok c'
+    else if cr.must c op && !liveOk c op res then .error "spurious-failure"
+    else .ok (c', cr.after c op)
 
-def Cur.judgeRun (M : Nat) (script : List Resp) (live : Bool) (c : Cur) :
-    List (ROp × RRes RErr) → Except String Cur
-  | [] => .ok c
+def Cur.judgeRun (M : Nat) (script : List Resp) (cr : Credit) (c : Cur) :
+    List (ROp × RRes RErr) → Except String (Cur × Credit)
+  | [] => .ok (c, cr)
   | (op, res) :: rest =>
-    match c.judge M script live op res with
-    | .ok c' => c'.judgeRun M script live rest
+    match c.judge M script cr op res with
+    | .ok p => p.1.judgeRun M script p.2 rest
     | .error s => .error s
 
 end Verif
